@@ -435,14 +435,29 @@ Proof.
   intros L s. unfold valid_hash_string, hex_ok. destruct (hex_decode s) as [b|]; [|split; reflexivity].
   destruct (Nat.eqb (length b) L); split; intro; try reflexivity; discriminate.
 Qed.
+Lemma some_inj {A} (a b : A) : Some a = Some b -> a = b.
+Proof. intro E. inversion E. reflexivity. Qed.
+
 (* case-insensitive comparison and decoding *)
-Lemma hex_val_lower : forall c c', ascii_lower c = ascii_lower c' -> hex_val c = hex_val c'.
+Ltac lebt a b := replace (a <=? b) with true by (symmetry; apply N.leb_le; lia).
+Ltac lebf a b := replace (a <=? b) with false by (symmetry; apply N.leb_gt; lia).
+Ltac ltbt a b := replace (a <? b) with true by (symmetry; apply N.ltb_lt; lia).
+Ltac ltbf a b := replace (a <? b) with false by (symmetry; apply N.ltb_ge; lia).
+
+Lemma hex_val_of_lower : forall c, hex_val (ascii_lower c) = hex_val c.
 Proof.
-  intros c c'. unfold ascii_lower, hex_val.
-  repeat match goal with
-         | |- context [?a <=? ?b] => destruct (N.leb_spec a b)
-         end; cbn [andb]; intro E; try reflexivity; try (f_equal; lia); try lia.
+  intro c. unfold ascii_lower.
+  destruct (N.leb_spec 65 c) as [A|A]; [|reflexivity].
+  destruct (N.leb_spec c 90) as [B|B]; [|reflexivity]. cbn [andb].
+  unfold hex_val.
+  lebt 48 (c + 32). lebf (c + 32) 57. lebt 97 (c + 32). lebt 48 c. lebf c 57. lebf 97 c. lebt 65 c.
+  cbn [andb].
+  destruct (N.leb_spec c 70) as [D|D].
+  - lebt (c + 32) 102. cbn [andb]. f_equal. lia.
+  - lebf (c + 32) 102. cbn [andb]. lebt 65 (c + 32). lebf (c + 32) 70. reflexivity.
 Qed.
+Lemma hex_val_lower : forall c c', ascii_lower c = ascii_lower c' -> hex_val c = hex_val c'.
+Proof. intros c c' E. rewrite <- (hex_val_of_lower c), <- (hex_val_of_lower c'), E. reflexivity. Qed.
 Lemma str_eqb_ci_decode : forall a b, str_eqb_ci a b = true -> hex_decode a = hex_decode b.
 Proof.
   induction a as [| x | x y r IH] using list_pair_ind; intros b E.
@@ -456,15 +471,14 @@ Proof.
       apply N.eqb_eq in E1. apply N.eqb_eq in E2.
       cbn [hex_decode]. rewrite (hex_val_lower _ _ E1), (hex_val_lower _ _ E2), (IH r' E3). reflexivity.
 Qed.
-Lemma some_inj {A} (a b : A) : Some a = Some b -> a = b.
-Proof. intro E. inversion E. reflexivity. Qed.
 Lemma hex_val_digit_inv : forall d h, hex_val (hex_digit d) = Some h -> h = d.
 Proof.
-  intros d h. unfold hex_digit, hex_val. destruct (N.ltb_spec d 10).
-  - repeat match goal with |- context [?a <=? ?b] => destruct (N.leb_spec a b) end; cbn [andb];
-      intro E; try discriminate; apply some_inj in E; lia.
-  - repeat match goal with |- context [?a <=? ?b] => destruct (N.leb_spec a b) end; cbn [andb];
-      intro E; try discriminate; apply some_inj in E; lia.
+  intros d h. unfold hex_digit. destruct (N.ltb_spec d 10) as [A|A]; unfold hex_val.
+  - lebt 48 (48 + d). lebt (48 + d) 57. cbn [andb]. intro E. apply some_inj in E. lia.
+  - lebt 48 (87 + d). lebf (87 + d) 57. lebt 97 (87 + d). cbn [andb].
+    destruct (N.leb_spec (87 + d) 102) as [B|B]; cbn [andb].
+    + intro E. apply some_inj in E. lia.
+    + lebt 65 (87 + d). lebf (87 + d) 70. cbn [andb]. discriminate.
 Qed.
 Lemma hex_decode_encode_inv : forall f r, hex_decode (hex_encode f) = Some r -> f = r.
 Proof.
@@ -480,10 +494,19 @@ Qed.
 Lemma hex_val_range : forall c h, hex_val c = Some h -> h < 16 /\ ascii_lower c = ascii_lower (hex_digit h).
 Proof.
   intros c h. unfold hex_val.
-  repeat match goal with |- context [?a <=? ?b] => destruct (N.leb_spec a b) end; cbn [andb];
-    intro E; try discriminate; apply some_inj in E; (split; [lia|]); unfold hex_digit, ascii_lower;
-    destruct (N.ltb_spec h 10);
-    repeat match goal with |- context [?a <=? ?b] => destruct (N.leb_spec a b) end; cbn [andb]; lia.
+  destruct ((48 <=? c) && (c <=? 57)) eqn:T1.
+  { apply andb_true_iff in T1. destruct T1 as [A B]. apply N.leb_le in A. apply N.leb_le in B.
+    intro E. apply some_inj in E. split; [lia|]. unfold hex_digit. ltbt h 10.
+    replace (48 + h) with c by lia. reflexivity. }
+  destruct ((97 <=? c) && (c <=? 102)) eqn:T2.
+  { apply andb_true_iff in T2. destruct T2 as [A B]. apply N.leb_le in A. apply N.leb_le in B.
+    intro E. apply some_inj in E. split; [lia|]. unfold hex_digit. ltbf h 10.
+    replace (87 + h) with c by lia. reflexivity. }
+  destruct ((65 <=? c) && (c <=? 70)) eqn:T3; [|discriminate].
+  apply andb_true_iff in T3. destruct T3 as [A B]. apply N.leb_le in A. apply N.leb_le in B.
+  intro E. apply some_inj in E. split; [lia|]. unfold hex_digit. ltbf h 10.
+  replace (87 + h) with (c + 32) by lia. unfold ascii_lower.
+  lebt 65 c. lebt c 90. lebt 65 (c + 32). lebf (c + 32) 90. reflexivity.
 Qed.
 Lemma hex_decode_ci : forall s r, hex_decode s = Some r -> str_eqb_ci s (hex_encode r) = true.
 Proof.
